@@ -60,7 +60,9 @@ func VerifH10aLexerAnyByte() {
 	// character -- not by byte)
 	plain := utf8.Valid(data) && (n == 0 || data[0] != 0xEF)
 	for _, b := range data {
-		plain = plain && b != '"' && b != '#' && b != '\\'
+		// (a carriage return is dropped by the lexer wherever it stands -- the CRLF convention; a lone
+		// CR inside a word is neither separator nor text, so such inputs are left to the totality check)
+		plain = plain && b != '"' && b != '#' && b != '\\' && b != '\r'
 	}
 	if plain {
 		want := strings.Fields(string(data))
